@@ -296,6 +296,10 @@ func newConn(conn net.Conn, isServer bool, readBufferSize, writeBufferSize int, 
 	if writeBufferSize <= 0 {
 		writeBufferSize = defaultWriteBufferSize
 	}
+	if writeBufferSize < maxControlFramePayloadSize {
+		// must be large enough for control frame
+		writeBufferSize = maxControlFramePayloadSize
+	}
 	writeBufferSize += maxFrameHeaderSize
 
 	if writeBuf == nil && writeBufferPool == nil {
